@@ -320,6 +320,10 @@ type VerifNode struct {
 	Failed  interface{} // recovered panic of the handler ("CONSENSUS FAILURE"): the node is halted
 	FailStk string
 	Killed  bool
+	// full-stack variant (zz_verif_fullnode.go)
+	Full       *VerifFullParts
+	CatchupErr error
+	Repaired   bool
 }
 
 // VerifNewNode wires a node the way mainchain/backend.go New does (store, evidence pool, executor,
